@@ -10,6 +10,11 @@ use emit_core::props::{ErasedProps, Props};
 
 /// The generic coherence obligation for one collection and one symbolic lookup key.
 pub fn coherent<P: Props + ?Sized>(p: &P, pool: &[&str], max_len: usize) {
+    coherent_by(p, pool, max_len, |v| v.by_ref().cast::<i32>().unwrap_or(-1))
+}
+
+/// `id` identifies a value (so that "first value" can be compared) without formatting it.
+pub fn coherent_by<P: Props + ?Sized>(p: &P, pool: &[&str], max_len: usize, id: fn(&emit_core::value::Value) -> i32) {
     let qi: usize = kani::any();
     kani::assume(qi < pool.len());
     let q = pool[qi];
@@ -20,17 +25,17 @@ pub fn coherent<P: Props + ?Sized>(p: &P, pool: &[&str], max_len: usize) {
     let r = p.for_each(|k, v| {
         total += 1;
         if k.get() == q {
-            if first.is_none() { first = Some(v.cast::<i32>().unwrap_or(-1)); }
+            if first.is_none() { first = Some(id(&v)); }
             seen_q += 1;
         }
         ControlFlow::Continue(())
     });
     assert!(r == ControlFlow::Continue(()), "a visitor that never breaks sees Continue");
     assert!(total <= max_len);
-    let got = p.get(q).map(|v| v.cast::<i32>().unwrap_or(-1));
+    let got = p.get(q).map(|v| id(&v));
     assert!(got == first, "get returns the first enumerated value for the key, or nothing");
-    let pulled = p.pull::<i32, _>(q);
-    assert!(pulled == first.filter(|v| *v != -1), "pull agrees with get");
+    let pulled = p.pull::<emit_core::value::Value, _>(q).map(|v| id(&v));
+    assert!(pulled == first, "pull agrees with get");
     if p.is_unique() { assert!(seen_q <= 1, "a collection that claims uniqueness never enumerates a key twice"); }
     // early exit: break at the k-th pair
     let k: usize = kani::any();
@@ -108,9 +113,13 @@ pub fn c02_q_extent_view() {
     let range: bool = kani::any();
     let x = if range { Extent::range(sym_ts()..sym_ts()) } else { Extent::point(sym_ts()) };
     const KEYS: [&str; 3] = ["ts", "ts_start", "a"];
-    // values are timestamps (not i32): coherence of key handling is what is checked; both -1 markers agree
-    coherent(&x, &KEYS, 2);
-    coherent(&And::new(pair(1), &x), &["ts", "ts_start", "a", "b"], 3);
+    // values are timestamps: identified by downcast (no formatting), i32 values by cast
+    fn id(v: &emit_core::value::Value) -> i32 {
+        if let Some(t) = v.downcast_ref::<emit_core::timestamp::Timestamp>() { (t.to_unix().as_secs() as i32) | 1 }
+        else { v.by_ref().cast::<i32>().unwrap_or(-1) }
+    }
+    coherent_by(&x, &KEYS, 2, id);
+    coherent_by(&And::new(("a", 1), &x), &["ts", "ts_start", "a", "b"], 3, id);
 }
 
 #[kani::proof]
